@@ -44,7 +44,10 @@ Definition check (c : case) : bool :=
       end
   end.
 
+(* the closed form above IS the property's statement (theorems C02_many_messages_iff /
+   C02_one_message_iff), so a verdict that differs from it is a failure of the property itself *)
 Definition prop_check (c : case) : bool :=
+  check c &&
   match c with
   | ManyCase _ cands consistent =>
       consistent && forallb (fun c => String.eqb (snd c) "true" || String.eqb (snd c) "false") cands
